@@ -21,7 +21,7 @@ META = dict(
                  'monitoring cap of 300/600 steps: capped runs have no verdict and are excluded (counted)'],
     min_events={'quick': {'arguments_compared': 1500, 'runs': 20000, 'logics': 52, 'distinct_signatures': 3000},
                 'thorough': {'arguments_compared': 15000, 'runs': 400000, 'logics': 52}},
-    budget=dict(quick=1500, thorough=3000),
+    budget=dict(quick=1500, thorough=7200),
     unit_timeout=dict(quick=900, thorough=3000),
 )
 
